@@ -42,7 +42,9 @@ def main():
             'engine': 'verus',
             'level_claimed': {'category': cat, 'text': text, 'design_ref': ref},
             'level_note': TRUST,
-            'technique': 'contract-based deductive verification (Verus) of functions re-extracted from /repo on every run',
+            'technique': ('contract-based deductive verification (Verus) of functions re-extracted from /repo on every run'
+                          + ('; backup-name code by bounded exhaustive enumeration on the real functions (labelled bounded)' if pid == 'C09' else '')
+                          + ('; Kani loop-free leaves on the compiled code in the thorough tier' if pid in ('C01', 'C05') else '')),
         })
     m = {
         'version': 1,
